@@ -116,7 +116,10 @@ def Ctx.observe (c : Ctx) (s : Sim) (obsStr : String) (evs : List Spec.Ev) : Ctx
         if showObs mo != showObs o then c.fail "CORR" s!"model: {showObs mo} impl: {showObs o}" else c
     let cfg := st.cfg
     let stale := c.st.spec.ws.map (·.stale)
-    let stale := if c.ex.specOn then stale else o.ws.map (fun _ => false)
+    -- what a queue holds between Reset and the next spawn is unspecified (it keeps its old
+    -- contents): the reference tracks which queues are stale; without the reference (cores above
+    -- 300 cells, negative entry points, tag wild) every warrior that is not alive may be
+    let stale := if c.ex.specOn then stale else o.ws.map (fun (a, _) => !a)
     -- C04
     let c := match (if c.st.tag == "wild" then none else c04Check cfg o stale) with
       | some m => c.fail "PROP" s!"C04 {m} :: {showObs o}"
